@@ -126,6 +126,16 @@ func propC09() *Prop {
 			}
 			js = append(js, job("C09h/cleanup", "ratelimiter", "VerifC09Cleanup"))
 			js = append(js, lbJob("C09f/gate[ServeHTTP + limiter + breaker]", "VerifC09Gate"))
+			for l := int64(0); l <= tierPick(tier, 3, 4); l++ {
+				js = append(js, lbJob(fmt.Sprintf("C09f/gate-any-client-attribution[every ASCII X-Forwarded-For of %d bytes]", l), "VerifC09GateAny", l))
+			}
+			{
+				n := tierPick(tier, 10050, 40000)
+				j := job(fmt.Sprintf("C09h/cleanup-keeps-every-recent-bucket[%d tracked clients]", n), "ratelimiter", "VerifC09ManyClients", n)
+				j.LoopBound = int(n) + 50
+				j.ValidatePaths = 0
+				js = append(js, j)
+			}
 			js = append(js, threadJob(job("C09g/no-double-spend[2 threads, existing bucket]", "ratelimiter", "VerifC09Concurrent", 2, 1, 2), 2))
 			js = append(js, threadJob(job("C09g/no-double-spend[2 threads, new client]", "ratelimiter", "VerifC09Concurrent", 2, 0, 2), 2))
 			js = append(js, threadJob(job("C09g/no-double-spend[2 threads, new client, max_tokens 1: more first requests than tokens]", "ratelimiter", "VerifC09Concurrent", 2, 0, 1), int(tierPick(tier, 2, 3))))
@@ -137,8 +147,8 @@ func propC09() *Prop {
 			return js
 		},
 		Assumptions: commonAssumptions,
-		Bounds:      map[string]string{"quick": "one Allow from an arbitrary invariant state (inductive)", "thorough": "same"},
-		Outside:     []string{"more than 3 goroutines on one bucket", "timing of the cleanup goroutine"},
+		Bounds:      map[string]string{"quick": "one Allow from an arbitrary invariant state (inductive); k<=3 calls at symbolic instants for the window / burst / idle / isolation clauses; cleanup with up to 10050 simultaneously tracked clients; 2-3 goroutines on one bucket", "thorough": "k<=4; 40000 tracked clients"},
+		Outside:     []string{"more than 3 goroutines on one bucket", "timing of the cleanup goroutine", "more than 10050 (quick) / 40000 (thorough) simultaneously tracked clients"},
 	}
 }
 
@@ -154,6 +164,15 @@ func propC07() *Prop {
 			js = append(js, job("C07a/inductive-step[thresholds<=2^30]", "circuitbreaker", "VerifC07Step", 1<<30))
 			for k := int64(4); k <= tierPick(tier, 4, 5); k++ {
 				js = append(js, job(fmt.Sprintf("C07a/histories[k=%d]", k), "circuitbreaker", "VerifC07Seq", k))
+			}
+			for n := int64(1); n <= tierPick(tier, 4, 6); n++ {
+				js = append(js, job(fmt.Sprintf("C07a/spaced-failures[failure_threshold=%d, every gap <= interval]", n), "circuitbreaker", "VerifC07Spaced", n, 0))
+				if n >= 2 {
+					js = append(js, job(fmt.Sprintf("C07a/spaced-failures[failure_threshold=%d, last gap > interval]", n), "circuitbreaker", "VerifC07Spaced", n, 1))
+				}
+			}
+			if tier == "thorough" {
+				js = append(js, job("C07a/timed-histories[k=3 steps of (any time passes, then a request)]", "circuitbreaker", "VerifC07SeqTimed", 3))
 			}
 			js = append(js, neg(job("C07a/negative-twin", "circuitbreaker", "VerifC07NegStep")))
 			js = append(js, lbJob("C07c/wiring[ServeHTTP + breaker + scripted backend]", "VerifC07Wiring"))
@@ -179,6 +198,7 @@ func propC08() *Prop {
 			var js []*sym.Job
 			js = append(js, job("C08a/recovery-from-any-invariant-state", "circuitbreaker", "VerifC08Step"))
 			js = append(js, lbJob(fmt.Sprintf("C08b/notifications-never-block[k=%d]", tierPick(tier, 3, 4)), "VerifC08Notify", tierPick(tier, 3, 4)))
+			js = append(js, lbJob("C08a/every-accepted-configuration-recovers[real validation + real setupCircuitBreaker, thresholds 1..3, max_requests unset..3]", "VerifC08Config"))
 			for k := int64(2); k <= tierPick(tier, 3, 5); k++ {
 				js = append(js, job(fmt.Sprintf("C08a/recovery-after-history[k=%d]", k), "circuitbreaker", "VerifC08Recovery", k))
 			}
@@ -387,6 +407,9 @@ func propC04() *Prop {
 					js = append(js, j)
 				}
 			}
+			for s := int64(0); s < tierPick(tier, 3, 5); s++ {
+				js = append(js, lbJob(fmt.Sprintf("C04e/configured-window[%s, real createHealthChecker, active/passive on/off, threshold 1..3, any unhealthy_timeout]", strategyNames[s]), "VerifC04Config", s))
+			}
 			js = append(js, threadJob(lbJob("C04c/expiry-check-racing-a-fresh-ejection", "VerifC04Race"), int(tierPick(tier, 2, 3))))
 			js = append(js, threadJob(lbJob("C04d/concurrent-failed-responses-at-the-threshold", "VerifC04ConcurrentFailures"), int(tierPick(tier, 2, 3))))
 			for _, j := range js {
@@ -436,6 +459,8 @@ func propC13() *Prop {
 			js = append(js, threadJob(lbJob("C13b/two-interleaved-requests[gauge and mirror at quiescence]", "VerifC13Interleaved"), int(tierPick(tier, 2, 3))))
 			ji := lbJob("C13a/accounting[round_robin,passive,k=2,healthy,backend may send an interim 103 first]", "VerifC13Accounting", 0, 4+8, 2, 0)
 			js = append(js, ji)
+			js = append(js, lbJob("C13a/accounting[round_robin,passive,k=2,healthy,the client may have disconnected (cancelled request context)]", "VerifC13Accounting", 0, 4+16, 2, 0))
+			js = append(js, lbJob("C13a/accounting[least_connections,breaker,k=2,healthy,the client may have disconnected]", "VerifC13Accounting", 1, 1+16, 2, 0))
 			j3 := lbJob("C13a/accounting[round_robin,breaker,k=3,healthy,success_threshold 1..2: reaches the half-open 429]", "VerifC13Accounting", 0, 1, 3, 0)
 			j3.MaxPaths = 400000
 			js = append(js, j3)
@@ -460,6 +485,7 @@ func propC01() *Prop {
 			js = append(js, job("C01b/middleware-transparency", "logging", "VerifC01Middleware"))
 			js = append(js, mainJob("C01d/full-handler-stack[plugins -> middleware -> balancer -> scripted backend]", "VerifStack", 0, tierPick(tier, 2, 3), 0))
 			js = append(js, mainJob("C01d/full-handler-stack[backend sends 0..2 interim 103 responses with their own headers]", "VerifStack", 0, 1, 1))
+			js = append(js, mainJob("C01d/full-handler-stack[breaker enabled: every backend status incl. 5xx, refused, aborted]", "VerifStack", 1, tierPick(tier, 2, 3), 0))
 			return js
 		},
 		Assumptions: append([]string{"claimed for the Helios-owned layers between net/http and httputil.ReverseProxy only: the status-capturing responseWriter, RequestContextMiddleware, and the per-backend proxy construction; hop-by-hop handling, framing, HTTP/2 and the Transport are the Go standard library and are trusted", "the client connection is a recording ResponseWriter implementing net/http's documented contract (first final WriteHeader wins and freezes the header snapshot, Write/Flush imply 200, 1xx are interim)", "flush requests are issued through the real http.NewResponseController(...).Flush() as ReverseProxy does"}, commonAssumptions...),
@@ -502,7 +528,11 @@ func propC16() *Prop {
 	return &Prop{
 		ID: "C16", Title: "Request-ID / trace-ID propagation is consistent end to end",
 		Jobs: func(tier string) []*sym.Job {
+			many := job(fmt.Sprintf("C16b/many-identifiers-all-distinct[%d generations, random source never repeating]", tierPick(tier, 1200, 20000)), "logging", "VerifC16ManyIDs", tierPick(tier, 1200, 20000))
+			many.LoopBound = int(tierPick(tier, 1200, 20000)) + 50
+			many.ValidatePaths = 0
 			return []*sym.Job{
+				many,
 				job("C16a/propagation", "logging", "VerifC16Propagation"),
 				job("C16b/identifier-injectivity", "logging", "VerifC16Unique"),
 				job("C16b/uniqueness-across-requests[same client request ID]", "logging", "VerifC16TwoRequests"),
@@ -513,7 +543,7 @@ func propC16() *Prop {
 		},
 		Assumptions: append([]string{"crypto/rand.Read fills the buffer with arbitrary bytes and returns no error (documented never to fail on Linux); uniqueness across requests is reduced to: distinct 12-byte draws give distinct identifiers (injectivity, decided for all 2^192 pairs of draws)", "client-supplied ID values are what net/http's parser can deliver: 1..3 printable ASCII bytes without surrounding white space, or absent", "downstream handler: a backend stub, or http.Error with 429 / 503 / 413"}, commonAssumptions...),
 		Bounds:      map[string]string{"quick": "all 4 enabled/disabled combinations x default/custom header names x client value absent or any 1..3 printable bytes x 4 downstream response kinds", "thorough": "same"},
-		Outside:     []string{"10^5 concurrent generations (reduced to injectivity + crypto/rand's contract)", "the example request-id plugin overriding the middleware's value", "timestamp fallback when crypto/rand fails"},
+		Outside:     []string{"10^5 concurrent generations (reduced to injectivity + crypto/rand's contract; 1200 / 20000 sequential generations with a never-repeating random source are executed)", "the example request-id plugin overriding the middleware's value", "timestamp fallback when crypto/rand fails"},
 	}
 }
 
@@ -524,6 +554,9 @@ func propC14() *Prop {
 			var js []*sym.Job
 			for k := int64(1); k <= tierPick(tier, 4, 5); k++ {
 				js = append(js, job(fmt.Sprintf("C14a/response-side[k=%d]", k), "plugins", "VerifC14Response", k))
+			}
+			{
+				js = append(js, job("C14a/response-side[two exchanges through one plugin instance]", "plugins", "VerifC14Reuse"))
 			}
 			js = append(js, job("C14b/request-side", "plugins", "VerifC14Request"))
 			js = append(js, job("C14c/options", "plugins", "VerifC14Options"))
@@ -623,6 +656,7 @@ func propC18() *Prop {
 				js = append(js, j)
 			}
 			js = append(js, job("C18b/yaml-typed-plugin-options", "plugins", "VerifC18PluginOptions"))
+			js = append(js, job("C18b/plugin-config-block-omitted-empty-or-partial[6 built-ins x 4 forms]", "plugins", "VerifC18PluginOmissions"))
 			js = append(js, mainJob("C18c/accepted-config-starts", "VerifC18Starts", tierPick(tier, 0, 1)))
 			js = append(js, neg(job("C18/negative-twin", "config", "VerifC18Neg")))
 			return js
@@ -680,6 +714,9 @@ func propC11() *Prop {
 				j := lbJob(fmt.Sprintf("C11a/model-based-histories[k=%d]", k), "VerifC11History", k)
 				j.MaxPaths = 3000000
 				js = append(js, j)
+			}
+			for k := int64(1); k <= tierPick(tier, 2, 3); k++ {
+				js = append(js, job(fmt.Sprintf("C11c/admin-api-histories[k=%d, names with leading/trailing blanks]", k), "adminapi", "VerifC11API", k))
 			}
 			for i, n := range []string{"SetStrategy || AddBackend", "SetStrategy || RemoveBackend", "AddBackend || RemoveBackend", "SetStrategy || SetStrategy", "ListBackends || RemoveBackend (4 backends)", "ListBackends || AddBackend (4 backends)"} {
 				js = append(js, threadJob(lbJob("C11b/atomicity["+n+"]", "VerifC11Atomic", int64(i)), int(tierPick(tier, 2, 3))))
@@ -769,6 +806,8 @@ func propC12() *Prop {
 					}
 				}
 			}
+			// lock discipline along histories (a lock leaked on one path wedges every later operation): the C04 event histories, deadlock detection only matters here
+			js = append(js, job("C12/histories[health events incl. a probe in flight across an ejection, then traffic and admin reads; k=4]", "loadbalancer", "VerifC04History", 0, 4))
 			js = append(js, threadJob(lbJob("C12/pair[health-check tick || Stop]", "VerifC19Stop", 0, 1, 1), int(tierPick(tier, 2, 3))))
 			js = append(js, threadJob(lbJob("C12/pair[Stop || Stop]", "VerifC19Stop", 1, 1, 0), int(tierPick(tier, 2, 3))))
 			js = append(js, threadJob(lbJob("C12/pair[Stop || probe in flight to a hung backend]", "VerifC19Stop", 3, 1, 0), 2))
@@ -805,6 +844,9 @@ func propC19() *Prop {
 				js = append(js, threadJob(lbJob("C19/Stop-with-probe-in-flight-to-a-hung-backend[N=1,1 tick]", "VerifC19Stop", 3, 1, 1), 2))
 			}
 			js = append(js, threadJob(lbJob("C19/Stop-racing-Stop", "VerifC19Stop", 1, 1, 0), int(tierPick(tier, 2, 3))))
+			for i, n := range []string{"cleanup || Put", "Get || Get", "Put || Shutdown", "first Put of a new backend || Shutdown"} {
+				js = append(js, threadJob(lbJob("C19/pool["+n+"; afterwards Shutdown has closed every connection the pool accepted]", "VerifC20Concurrent", int64(i)), int(tierPick(tier, 2, 3))))
+			}
 			js = append(js, threadJob(lbJob("C19/Stop-then-late-tick-then-Stop[N=2]", "VerifC19Stop", 2, 2, 0), 1))
 			return js
 		},
